@@ -154,6 +154,7 @@ type rdbBuilt struct {
 	Expect []*rdbExpect
 	ByKey  map[string]*rdbExpect
 	Allow  map[string]bool // "<db>/<key>" the target may hold besides the snapshot's keys (pre-populated by a check)
+	TypeAt []int           // file offsets of the value type bytes, in file order
 }
 
 var rdbCaseCache = map[string]*ref.RDBCase{}
@@ -285,6 +286,7 @@ func rdbBuild(scn rdbScenario, now int64) (*rdbBuilt, error) {
 	b.File = g.File
 	for _, v := range g.Values {
 		b.ByKey[string(v.Key)].Body = v.Body
+		b.TypeAt = append(b.TypeAt, v.TypeAt)
 	}
 	return b, nil
 }
